@@ -25,6 +25,16 @@ def confirm(seeddir, wt):
     res = {"head": head}
     sh("git checkout -q --detach %s && git checkout -- . && git clean -fdq" % head, cwd=wt)
     rc, out = sh("git apply --check %s/patch.diff && git apply %s/patch.diff" % (seeddir, seeddir), cwd=wt)
+    if rc != 0:
+        # the repository moved on since the change was proposed: carry it over with a three-way merge and keep the
+        # carried-over diff as the patch
+        rc, out = sh("git apply --3way %s/patch.diff" % seeddir, cwd=wt)
+        if rc == 0:
+            rc2, diff = sh("git diff HEAD", cwd=wt)
+            shutil.copyfile(os.path.join(seeddir, "patch.diff"), os.path.join(seeddir, "patch.orig.diff"))
+            open(os.path.join(seeddir, "patch.diff"), "w").write(diff)
+            sh("git reset -q", cwd=wt)
+            res["rebased"] = True
     res["applies"] = rc == 0
     if rc != 0:
         res["apply_error"] = out[-800:]
@@ -38,11 +48,12 @@ def confirm(seeddir, wt):
     m = re.search(r"cp \S*demo_test\.go (\S+)", demo)
     target = m.group(1) if m else None
     rc, out = sh(demo, cwd=wt, timeout=1200)
-    res["demo_fails_with_change"] = rc != 0
+    bad = lambda rc, out: rc != 0 or any(w in out for w in ("FAIL", "panic:", "DATA RACE", "fatal error:"))
+    res["demo_fails_with_change"] = bad(rc, out)
     res["demo_with_tail"] = out[-500:]
     sh("git checkout -- .", cwd=wt)  # the demo file (untracked) stays
     rc, out = sh(demo, cwd=wt, timeout=1200)
-    res["demo_passes_without"] = rc == 0
+    res["demo_passes_without"] = not bad(rc, out)
     res["demo_without_tail"] = out[-300:]
     sh("git checkout -- . && git clean -fdq", cwd=wt)
     if target:
